@@ -92,6 +92,12 @@ def handlers : List (String × (List Sexp → String)) := [
                                  .atom "entry-ok", Sexp.ofBool (g.entry == (entryNodes s).head?)])
       | _, _ => "bad-args"
     | _ => "bad-args"),
+  ("c05.hyp", fun a => match a with
+    | [x] => match parseStmt x with
+      | some s => toString (Sexp.list [Sexp.ofBool (fnSupported s), Sexp.ofBool (fnFrag2 s), Sexp.ofBool (fnDistinctKeys s),
+                                       Sexp.ofBool (fnNoJumpInHandlerOfTryWithFinally s)])
+      | none => "bad-node"
+    | _ => "bad-args"),
   ("c05.class", fun a => match a with
     | [x] => match parseStmt x with
       | some s => if fnNoJumpInHandlerOfTryWithFinally s then "none" else "jump_in_handler_of_try_with_finally"
